@@ -74,7 +74,13 @@ func c10Config(r *gen.R) *c10World {
 			u.Scopes = []string{w.Scopes[r.Intn(ns)].Name}
 		}
 		var cred c10Cred
-		switch r.Intn(10) {
+		switch r.Intn(11) {
+		case 10:
+			// keychain-backed authenticator inherited from a group: every member has its own
+			// keychain entry
+			p := pw()
+			u.Groups = []config.Group{gNone, {Name: "g-keychain", Authenticator: &config.Authenticator{Type: config.BCRYPT, Options: map[string]string{"group": "grp"}}}}
+			cred = c10Cred{Kind: "keychain", Hash: refsrv.RawHash(p), Pw: p}
 		case 0, 1, 2:
 			p := pw()
 			u.Authenticator = refsrv.Bcrypt(p)
@@ -245,7 +251,16 @@ func c10Flow(r *gen.R, w *c10World, scope int) c10Session {
 		}
 	}
 	s := c10Session{User: user, Password: pw, PwRel: pwRel, Users: []string{user}, Passwords: []string{pw}}
-	switch r.Pick(0, 1, 2, 3, 4, 5, 6, 7, 7, 7, 8, 9, 10, 11, 12, 13, 14) {
+	switch r.Pick(0, 1, 2, 3, 4, 5, 6, 7, 7, 7, 8, 9, 10, 11, 12, 13, 14, 15) {
+	case 15:
+		// the abort bit together with other bits of the flag octet, on the user-name or the
+		// password answer: still an abort
+		fl := r.Pick(0x03, 0x81, 0xff, 0x05, 0x41)
+		rc := asciiLogin(user, r.Bool(), pw, 0)
+		at := 1 + r.Intn(len(rc.Pkts)-1)
+		v, _ := rfc8907.Decode(rfc8907.AuthenContinue, rc.Pkts[at].Body)
+		rc.Pkts[at].Body = bAuthenContinue(fl, string(v.Texts["user_msg"]), "")
+		s.Flow, s.Pkts, s.Eligible = fmt.Sprintf("ascii-abort-with-extra-flag-bits@%d", at+1), rc.Pkts, true
 	case 12:
 		// at the password prompt the client sends a START (PAP- or ASCII-shaped) whose data
 		// field holds the password, instead of a CONTINUE
